@@ -126,7 +126,8 @@ def scenario(rng):
     p["fkind"] = rng.weighted([(0, 5), (1, 3), (2, 2)])
     p["cache"] = 1 if rng.chance(19, 20) else 0
     if p["argform"] in (1, 3) and rng.chance(1, 2):
-        p["cache"] = 0
+        # an explicit funder with nothing cached, or with ANOTHER (rich) account cached: the explicit one has to pay
+        p["cache"] = rng.choice([0, 2, 2])
     p["lpby"] = rng.weighted([(3480, 5), (6960, 2), (1, 2), (0, 1), (10 ** 9, 1)])
     p["mult"] = rng.choice([2, 2, 1])
     p["ival"] = rng.bytes(rng.choice([0, 1, 5, 13, 40]) if p["kind"] == 2 else len(k["default"]))
@@ -385,7 +386,7 @@ def describe(c):
         "wrapper": ["Init<Signer<_>>", "Init<Seeded<_>> + Seeds", "Init<Seeded<_>> + SeedsWithBump"][p["seeded"]],
         "arg_form": ["()", "(&funder,)", "|| value", "(|| value, &funder)"][p["argform"]],
         "funder_kind": ["Mut<Signer>", "Mut<Seeded<SystemAccount>>", "Signer<Mut<SystemAccount>>"][p["fkind"]],
-        "funder_cached": bool(p["cache"]), "lamports_per_byte_year": p["lpby"], "exemption_threshold": float(p["mult"]),
+        "funder_cache": ["empty", "the funder", "ANOTHER account (a rich signer)"][p["cache"]], "lamports_per_byte_year": p["lpby"], "exemption_threshold": float(p["mult"]),
         "space": space, "min_balance": R.min_balance(p["lpby"], p["mult"], space),
         "funder": p["funder"], "target": p["target"], "target_seeds": p["tseeds"], "bump_arg": p["tbump"],
         "funder_seeds": p["fseeds"], "initial_value_bytes": body,
